@@ -23,7 +23,7 @@ from .common import CompileError
 
 SAFE = set("abcdefghijklmnopqrstuvwxyzABCDEFGHIJKLMNOPQRSTUVWXYZ0123456789._/-=+:,@")
 
-FIDS = {"pthread-not-lpthread", "emit-qbe-default-output-not-stdout", "short-input-name-refused"}
+FIDS = {"pthread-not-lpthread", "emit-qbe-default-output-not-stdout"}
 
 
 # ----------------------------------------------------------------------------- protocol
@@ -382,8 +382,8 @@ def model_batch(ck, drv, cases):
         lines.append("\t".join(["run"] + [enc(a) for a in c["argv"]]))
         if c["items"] is not None:
             its = [enc_item(it) for it in c["items"]]
-            lines.append("\t".join(["doc", "111"] + its))
-            lines.append("\t".join(["doc", "000"] + its))
+            lines.append("\t".join(["doc", "11"] + its))
+            lines.append("\t".join(["doc", "00"] + its))
             lines.append("\t".join(["dev"] + its))
             lines.append("\t".join(["render"] + its))
             idx.append(5)
